@@ -118,8 +118,8 @@ def keyinit_rule(ck, f, rule, label):
             if args:
                 b, o = ir.ptr_base(f, tuple(args[0]))
                 Ib = f.inst(b) if b and b[0] == "i" else None
-                if Ib is not None and Ib.op == "alloca" and o == 0:
-                    first = (I, b)
+                if Ib is not None and Ib.op == "alloca" and o == 0 and Ib.get("alloc_size") == 16 + 4 * nk:
+                    first = (I, b)          # (the local cipher state: four state words and nk key words)
                     break
     if first is None:
         return
